@@ -32,7 +32,8 @@ pub enum AOp {
 #[derive(Clone, Debug, Serialize, Deserialize)]
 pub struct AdapterCase {
     /// 0 tokio, 1 async-std, 2 a plain thread in `Signals::forever()`, 3 a plain thread in a
-    /// `wait()` loop (the blocking front-end, really blocked in read(2))
+    /// `wait()` loop (the blocking front-end, really blocked in read(2)), 4 the mio adapter
+    /// registered with a `mio::Poll` (edge-triggered readiness, `pending()` on every event)
     pub runtime: u8,
     pub init: Vec<u8>,
     pub ops: Vec<AOp>,
@@ -57,7 +58,7 @@ pub fn strategy() -> BoxedStrategy<AdapterCase> {
         1 => Just(AOp::Pause),
         2 => Just(AOp::Interrupt),
     ];
-    let plain = (0u8..4, vec(0u8..3, 1..4), vec(op, 1..10))
+    let plain = (0u8..5, vec(0u8..3, 1..4), vec(op, 1..10))
         .prop_map(|(runtime, init, mut ops)| {
             // only watched signals are raised; nothing is raised after close
             if let Some(p) = ops.iter().position(|o| *o == AOp::Close) {
@@ -224,7 +225,7 @@ fn child(case: &AdapterCase, fd: i32) {
     let (handle_tx, handle_rx) = std::sync::mpsc::channel::<signal_hook::iterator::Handle>();
     let sh2 = shared.clone();
     let w2 = watched.clone();
-    let rt_kind = case.runtime % 4;
+    let rt_kind = case.runtime % 5;
     // the third-party handler for the interrupting signal: installed directly, no SA_RESTART
     extern "C" fn noop(_: c_int) {}
     unsafe {
@@ -235,7 +236,40 @@ fn child(case: &AdapterCase, fd: i32) {
     let panicked = Arc::new(AtomicBool::new(false));
     let p2 = panicked.clone();
     let consumer = std::thread::spawn(move || {
-        if rt_kind >= 2 {
+        if rt_kind == 4 {
+            let r = std::panic::catch_unwind(std::panic::AssertUnwindSafe(|| {
+                use mio::{Events, Interest, Poll, Token};
+                let mut poll = Poll::new().expect("mio poll");
+                let mut events = Events::with_capacity(8);
+                let mut signals = signal_hook_mio::v0_8::Signals::new(&w2).expect("mio Signals");
+                // the mio adapter has no close(): the harness stops this loop through the handle
+                // of an unrelated, empty instance
+                let stopper = signal_hook::iterator::Signals::new(&[] as &[c_int]).expect("stopper");
+                let handle = stopper.handle();
+                poll.registry().register(&mut signals, Token(7), Interest::READABLE).expect("register");
+                handle_tx.send(handle.clone()).unwrap();
+                // edge-triggered: the application acts on events only (pending() is never called
+                // on a time-out); a lost readiness event is a lost signal
+                while !handle.is_closed() {
+                    match poll.poll(&mut events, Some(std::time::Duration::from_millis(20))) {
+                        Ok(()) => {}
+                        Err(e) if e.kind() == std::io::ErrorKind::Interrupted => continue,
+                        Err(e) => panic!("mio poll: {}", e),
+                    }
+                    for ev in events.iter() {
+                        if ev.token() == Token(7) {
+                            for s in signals.pending() {
+                                record(&sh2, s);
+                            }
+                        }
+                    }
+                }
+            }));
+            if r.is_err() {
+                p2.store(true, Ordering::SeqCst);
+            }
+            sh2.ended.store(true, Ordering::SeqCst);
+        } else if rt_kind >= 2 {
             let r = std::panic::catch_unwind(std::panic::AssertUnwindSafe(|| {
                 let mut signals = signal_hook::iterator::Signals::new(&w2).expect("Signals");
                 handle_tx.send(signals.handle()).unwrap();
@@ -342,7 +376,7 @@ pub fn run_case(case: &AdapterCase) -> CaseReport {
     let (recs, end) = fork_stream(40_000, move |fd| child(&c2, fd));
     let mut rep = CaseReport::default();
     rep.hash = hash_of(&format!("{:?}", case));
-    let rt = if case.streams > 0 { ["tokio", "async-std"][case.runtime as usize % 2] } else { ["tokio", "async-std", "blocking forever()", "blocking wait() loop"][case.runtime as usize % 4] };
+    let rt = if case.streams > 0 { ["tokio", "async-std"][case.runtime as usize % 2] } else { ["tokio", "async-std", "blocking forever()", "blocking wait() loop", "mio"][case.runtime as usize % 5] };
     rep.class("real-adapter");
     rep.class(rt);
     rep.nontrivial = case.ops.iter().any(|o| matches!(o, AOp::RaiseAwait(_)));
